@@ -31,11 +31,11 @@ def vecF(x):
 
 
 def gen_case(rng, tier):
-    kind = str(rng.choice(["kraus_cptp", "kraus_cp", "kraus_rect", "nonCP", "unitary", "hp_nonCP", "ctor_super", "ctor_super"]))
+    kind = str(rng.choice(["kraus_cptp", "kraus_cp", "kraus_rect", "nonCP", "unitary", "hp_nonCP", "ctor_super", "ctor_super", "oper_square", "oper_rect", "oper_rect"]))
     dims = [[2], [3], [2, 2], [2], [4]][int(rng.integers(0, 5))]
     din = int(np.prod(dims))
     dout_dims = dims
-    if kind == "kraus_rect":
+    if kind in ("kraus_rect", "oper_rect"):
         dout_dims = [[3], [2], [2, 2], [4]][int(rng.integers(0, 4))]
         if dout_dims == dims:
             dout_dims = [3] if dims != [3] else [2]
@@ -70,6 +70,19 @@ def build(case):
         U = v @ np.diag(np.exp(1j * w)) @ v.conj().T
         Uq = qutip.Qobj(U, dims=[case["in"], case["in"]])
         return (lambda X: U @ X @ U.conj().T), {"oper": Uq}, True
+    if kind in ("oper_square", "oper_rect"):
+        # a conjugation X -> V X V+ given as a plain operator: isometry (trace preserving), co-isometry, contraction or arbitrary
+        sub = int(rng.choice([0, 0, 0, 1, 2]))
+        G = gi(max(din, dout), max(din, dout), rng) + np.eye(max(din, dout)) * 0.5
+        Qm, _ = np.linalg.qr(G)
+        if sub == 0:
+            Vm = Qm[:dout, :din]          # isometry when dout >= din, co-isometry when dout < din
+        elif sub == 1:
+            Vm = 0.5 * Qm[:dout, :din]
+        else:
+            Vm = gi(dout, din, rng) / 3.0
+        Vq = qutip.Qobj(Vm, dims=[case["out"], case["in"]])
+        return (lambda X: Vm @ X @ Vm.conj().T), {"oper": Vq}, True
     if kind == "ctor_super":
         # supermatrices as the library's constructors hand them out (with their cached flags), flags inspected
         A = gi(din, din, rng)
@@ -210,8 +223,11 @@ def run_case(case, rep_):
     J = reps["choi"].full()
     herm = np.abs(J - J.conj().T).max() < 1e-9 * (1 + np.abs(J).max())
     ev = np.linalg.eigvalsh((J + J.conj().T) / 2)
-    border = (abs(ev.min()) < 1e-6 * (1 + abs(ev).max()) and ev.min() < 0) or (not herm and np.abs(J - J.conj().T).max() < 1e-6)
-    cp_def = bool(herm and ev.min() >= -1e-9 * (1 + abs(ev).max()))
+    border_h = (not herm) and np.abs(J - J.conj().T).max() < 1e-6
+    # a smallest eigenvalue within rounding of zero: positive semidefinite in exact arithmetic (rank-deficient Choi matrices
+    # of maps with few Kraus operators), so the definition says CP; only a clearly negative tiny value is left undecided
+    border_cp = border_h or (-1e-6 * (1 + abs(ev).max()) < ev.min() < -1e-12 * (1 + abs(ev).max()))
+    cp_def = bool(herm and ev.min() >= -1e-12 * (1 + abs(ev).max()))
     # Tr_out J = identity_in  (Choi matrix labelled [in, out])
     Jt = J.reshape(din, dout, din, dout)
     tp_def = bool(np.abs(np.einsum("iaja->ij", Jt) - np.eye(din)).max() < 1e-8)
@@ -224,12 +240,16 @@ def run_case(case, rep_):
         except Exception as e:
             V(f"predicate-raises:{nm}", f"{type(e).__name__}: {e}"[:200])
             continue
-        if border:
-            continue
-        if got[0] != bool(herm):
+        if not border_h and got[0] != bool(herm):
             V(f"ishp:{nm}", f"ishp={got[0]} on '{nm}' but the Choi matrix is {'Hermitian' if herm else 'not Hermitian'}")
-        if got[1] != cp_def:
+        if not border_cp and got[1] != cp_def:
             V(f"iscp:{nm}", f"iscp={got[1]} on '{nm}' but the Choi matrix is {'positive semidefinite' if cp_def else 'not positive semidefinite'}")
+        try:
+            both = bool(q.iscptp)
+            if both != (got[1] and got[2]):
+                V(f"iscptp:{nm}", f"iscptp={both} on '{nm}' although iscp={got[1]} and istp={got[2]}")
+        except Exception as e:      # noqa
+            V(f"predicate-raises:{nm}", f"iscptp: {type(e).__name__}: {e}"[:200])
         if got[2] != tp_def:
             V(f"istp:{nm}", f"istp={got[2]} on '{nm}' but the partial trace of the Choi matrix is {'the identity' if tp_def else 'not the identity'}")
     return viol, reps
